@@ -68,7 +68,8 @@ PID = "C04"
 
 MAX_HANDLER_CALLS = 600     # horizon: handler invocations per execution
 MAX_RESUMES = 400           # horizon: resume() calls after the script
-EXEC_ALARM_S = 120          # backstop: a single execution may never hang the checker
+EXEC_ALARM_S = 300          # backstop: a single execution may never hang the checker (retried once
+EXEC_ALARM_RETRY_S = 1500   # with this limit before it is reported: machine load alone never trips it)
 
 
 class Horizon(Exception):
@@ -148,7 +149,7 @@ class Scripted4(Scripted):
         return super().handle_event(event)
 
 
-STATELESS_BEH = {"nop", "emit", "gen", "genside", "past"}
+STATELESS_BEH = {"nop", "emit", "gen", "genside", "past", "past2", "emitrev"}
 
 
 class ProgModel:
@@ -535,13 +536,13 @@ class Plain:
     __slots__ = ("obs", "total", "cancelled", "duration", "elog", "tlog", "dq", "error", "log")
 
 
-def run_plain(model, mode):
+def _run_plain(model, mode, limit):
     flags = MODES[mode]
     rec = InMemoryTraceRecorder() if "recorder" in flags else None
     w = model.build(rec)
     p = Plain()
     p.error = None
-    signal.alarm(EXEC_ALARM_S)
+    signal.alarm(limit)
     try:
         attach(w, flags)
         s = w.sim.run()
@@ -562,7 +563,7 @@ class Ref:
     __slots__ = ("D", "N", "obs", "log", "total", "cancelled", "duration", "error")
 
 
-def run_reference(model, plan):
+def _run_reference(model, plan, limit):
     """Uninterrupted run with an event hook recording the public surface after every
     delivery; ``plan`` = ((pos, d, idx), ...) events to schedule right after delivery pos."""
     w = model.build(None)
@@ -589,7 +590,7 @@ def run_reference(model, plan):
     ctl.on_event(hook)
     r = Ref()
     r.error = None
-    signal.alarm(EXEC_ALARM_S)
+    signal.alarm(limit)
     try:
         s = sim.run()
         r.total, r.cancelled, r.duration = s.total_events_processed, s.events_cancelled, s.duration_s
@@ -603,6 +604,26 @@ def run_reference(model, plan):
     r.obs = w.obs()
     r.log = list(w.log)
     return r
+
+
+def _retrying(fn, *args):
+    """A wall-clock backstop must never turn machine load into a verdict: retry once, much longer."""
+    r = fn(*args, EXEC_ALARM_S)
+    if r.error is not None and r.error[0] == "Hang":
+        r = fn(*args, EXEC_ALARM_RETRY_S)
+    return r
+
+
+def run_plain(model, mode):
+    return _retrying(_run_plain, model, mode)
+
+
+def run_reference(model, plan):
+    return _retrying(_run_reference, model, plan)
+
+
+def run_script(model, mode, script):
+    return _retrying(_run_script, model, mode, script)
 
 
 class Cache:
@@ -667,6 +688,9 @@ def alphabet_of(model, aid):
         return ext_alphabet(model, False)
     if aid == "extZ":
         return ext_alphabet(model, True)
+    if aid == "rst":  # reset-focused
+        P = model.params["A"]
+        return [("P",), ("S", 1), ("S", 2), ("R",), ("H", 1), ("BC", P["BC"]), ("BM",), ("I", 0), ("Z",)]
     if aid == "pause":  # no breakpoints, no injection: pure pause / step / resume
         return [("P",), ("S", 1), ("S", 2), ("S", 5), ("R",), ("H", 1), ("H", 2), ("H", 3)]
     raise AssertionError(aid)
@@ -823,12 +847,12 @@ class Exec:
             self._ret("R", None, self.ctl.resume())
 
 
-def run_script(model, mode, script):
+def _run_script(model, mode, script, limit):
     flags = set(MODES[mode]) | {"control"}
     rec = InMemoryTraceRecorder() if "recorder" in flags else None
     w = model.build(rec)
     ex = None
-    signal.alarm(EXEC_ALARM_S)
+    signal.alarm(limit)
     try:
         attach(w, flags)
         ex = Exec(w, model)
@@ -880,6 +904,7 @@ def judge(model, mode, script, ex, cache=CACHE):
         lastn = 0
         injected = False
         clause = "reset" if si > 0 else "run-divergence"
+        rshape = "pre-cancelled-event" if model.precancelled else "stateless"
         for it in items:
             tag = it[0]
             if tag == "arm":
@@ -902,8 +927,8 @@ def judge(model, mode, script, ex, cache=CACHE):
                 nontrivial = True
             # -- delivery log prefix produced so far equals the uninterrupted run's prefix
             if log[lastn:nlog] != rlog[lastn:nlog] or q > N:
-                shape = opn + ("+paused-schedule" if injected else "")
-                out.append((f"SimulationControl/{clause}/delivery-log/after-{shape}/{fam}",
+                shape = ("after-" + opn + ("+paused-schedule" if injected else "")) if si == 0 else rshape
+                out.append((f"SimulationControl/{clause}/delivery-log/{shape}/{fam}",
                             f"mode {mode}, script {script}: after {opn} (events_processed {p}->{q}) the harness log "
                             f"{log[lastn:nlog][:6]} differs from the uninterrupted run's {rlog[lastn:nlog][:6]}"))
                 diverged = True
@@ -932,7 +957,7 @@ def judge(model, mode, script, ex, cache=CACHE):
                                 f"script {script}: paused with events_processed={q} but {nlog} harness log entries "
                                 f"(uninterrupted run had {Dq[6]} at that count)"))
             elif q != N:
-                out.append((f"SimulationControl/{clause}/events-processed/after-{opn}/{fam}",
+                out.append((f"SimulationControl/{clause}/events-processed/{('after-' + opn) if si == 0 else rshape}/{fam}",
                             f"mode {mode}, script {script}: run completed after {q} events, uninterrupted run processed {N}"))
                 diverged = True
                 break
@@ -972,7 +997,7 @@ def judge(model, mode, script, ex, cache=CACHE):
             base = cache.plain(model, "nothing")
             tobs, ttot, tcan, tdur = base.obs, base.total, base.cancelled, base.duration
         obs = w.obs()
-        shape = "paused-schedule" if plan else "final"
+        shape = rshape if si > 0 else ("paused-schedule" if plan else "final")
         if obs != tobs:
             what = "delivery-log" if obs[0] != tobs[0] else "final-state"
             out.append((f"SimulationControl/{clause}/{what}/{shape}/{fam}",
@@ -1079,9 +1104,10 @@ class Stats:
         self.samples = []
         self.pruned = 0
         self.excluded = 0
+        self.cpu0 = time.process_time()
 
     def pack(self):
-        return {"exec": self.exec, "trans": self.trans, "nontriv": self.nontriv, "outcomes": self.outcomes,
+        return {"cpu": time.process_time() - self.cpu0, "exec": self.exec, "trans": self.trans, "nontriv": self.nontriv, "outcomes": self.outcomes,
                 "viol": self.viol, "samples": self.samples, "pruned": self.pruned, "excluded": self.excluded}
 
 
@@ -1104,38 +1130,59 @@ def visit(model, mode, script, st, driver, aid):
     return ex
 
 
-def dfs(model, mode, alpha, L, prefix, st, driver, aid):
+def _child_rule(alpha, L, prefix, op, phase_after):
+    """None = explore the child; otherwise ('excluded'|'pruned', number of scripts not executed)."""
+    left = L - len(prefix) - 1
+    if op[0] == "Z" and any(o[0] == "I" for o in prefix):
+        return "excluded", subtree_size(len(alpha), left)   # paused-schedule then reset: statement silent
+    if phase_after in ("done", "bad", "error") and (op[0] != "Z" or phase_after != "done"):
+        return "pruned", subtree_size(len(alpha), left)     # every further call is skipped: same execution
+    return None
+
+
+def dfs(model, mode, alpha, L, prefix, st, driver, aid, stop=None):
+    """Visit ``prefix`` and every extension up to length L.  With ``stop`` the recursion ends above
+    depth ``stop`` (deeper sub-trees belong to other jobs)."""
     ex = visit(model, mode, prefix, st, driver, aid)
     if len(prefix) >= L:
         return
-    left = L - len(prefix) - 1
-    done = ex.phase_after_script in ("done", "bad", "error")
-    has_inj = any(o[0] == "I" for o in prefix)
     for op in alpha:
-        if op[0] == "Z" and has_inj:
-            st.excluded += subtree_size(len(alpha), left)   # paused-schedule then reset: statement silent
+        rule = _child_rule(alpha, L, prefix, op, ex.phase_after_script)
+        if rule is not None:
+            if rule[0] == "excluded":
+                st.excluded += rule[1]
+            else:
+                st.pruned += rule[1]
             continue
-        if done and (op[0] != "Z" or ex.phase_after_script != "done"):
-            st.pruned += subtree_size(len(alpha), left)     # every further call is skipped: same execution
+        if stop is not None and len(prefix) + 1 >= stop:
             continue
-        dfs(model, mode, alpha, L, prefix + (op,), st, driver, aid)
+        dfs(model, mode, alpha, L, prefix + (op,), st, driver, aid, stop)
 
 
 def _tree_job(job):
-    (driver, specs, modes, aid, L, first_ops) = job
+    (driver, specs, modes, aid, L, sub) = job
     signal.signal(signal.SIGALRM, _on_alarm)
     st = Stats()
     for spec in specs:
         model = make_model(spec)
         alpha = alphabet_of(model, aid)
-        if aid == "extZ" and not (model.stateless or model.precancelled):
+        if aid in ("extZ", "rst") and not (model.stateless or model.precancelled):
             alpha = [o for o in alpha if o[0] != "Z"]
         for mode in modes:
-            if first_ops is None:
+            if sub is None:
                 dfs(model, mode, alpha, L, (), st, driver, aid)
+            elif sub[0] == "top":
+                dfs(model, mode, alpha, L, (), st, driver, aid, stop=sub[1])
             else:
-                for i in first_ops:
-                    dfs(model, mode, alpha, L, (alpha[i],), st, driver, aid)
+                prefix = tuple(alpha[i] for i in sub[1])
+                alive = True
+                for k in range(len(prefix)):   # is this sub-tree reached at all? (same rule as dfs)
+                    anc = run_script(model, mode, prefix[:k])
+                    if _child_rule(alpha, L, prefix[:k], prefix[k], anc.phase_after_script) is not None:
+                        alive = False
+                        break
+                if alive:
+                    dfs(model, mode, alpha, L, prefix, st, driver, aid)
     return st.pack()
 
 
@@ -1170,6 +1217,7 @@ def collect(run, d, results, t0):
         outcomes |= r["outcomes"]
         pruned += r["pruned"]
         excluded += r["excluded"]
+        d.extra["cpu_s"] = round(d.extra.get("cpu_s", 0.0) + r["cpu"], 2)
         for fp, (desc, rep) in r["viol"].items():
             run.violation(fp, desc, rep)
         if len(d.samples) < 3:
@@ -1181,6 +1229,7 @@ def collect(run, d, results, t0):
     d.extra["scripts_excluded_paused_schedule_then_reset"] = d.extra.get(
         "scripts_excluded_paused_schedule_then_reset", 0) + excluded
     d.wall_s += time.time() - t0
+    print(f"[{PID}] {d.name}: cpu={d.extra.get('cpu_s')}s (sum over workers) executions={d.executions}", flush=True)
 
 
 def chunked(items, n):
@@ -1191,16 +1240,20 @@ def chunked(items, n):
 def script_driver(run, seed, name, specs, modes, aid, L, split_first, bounds, nchunks=64):
     """All scripts of length <= L over alphabet ``aid`` x specs x modes."""
     t0 = time.time()
-    d = run.driver(name, dict(bounds, models=len(specs), modes=modes, alphabet=aid, max_script_len=L,
-                              alphabet_symbols=[list(map(str, o)) for o in alphabet_of(make_model(specs[0]), aid)]))
+    d = run.driver(name)
+    d.bounds.setdefault("parts", []).append(dict(
+        bounds, models=len(specs), modes=modes, alphabet=aid, max_script_len=L,
+        alphabet_symbols=[" ".join(map(str, o)) for o in alphabet_of(make_model(specs[0]), aid)]))
     jobs = []
     if split_first:
+        import itertools
+        depth = min(L, 2 if L >= 5 else 1)
         na = len(alphabet_of(make_model(specs[0]), aid))
         for spec in specs:
             for mode in modes:
-                jobs.append((name, [spec], [mode], aid, 0, None))  # the empty script
-                for i in range(na):
-                    jobs.append((name, [spec], [mode], aid, L, [i]))
+                jobs.append((name, [spec], [mode], aid, L, ("top", depth)))
+                for idx in itertools.product(range(na), repeat=depth):
+                    jobs.append((name, [spec], [mode], aid, L, ("sub", idx)))
     else:
         for ch in chunked(specs, nchunks):
             jobs.append((name, ch, modes, aid, L, None))
@@ -1211,7 +1264,8 @@ def script_driver(run, seed, name, specs, modes, aid, L, split_first, bounds, nc
 
 def mode_driver(run, seed, name, specs, bounds, nchunks=64):
     t0 = time.time()
-    d = run.driver(name, dict(bounds, models=len(specs), modes=MODE_ORDER))
+    d = run.driver(name)
+    d.bounds.setdefault("parts", []).append(dict(bounds, models=len(specs), modes=MODE_ORDER))
     jobs = [(name, ch) for ch in chunked(specs, nchunks)]
     res = pmap(_mode_job, rotate(jobs, seed), ordered=False)
     collect(run, d, res, t0)
@@ -1253,6 +1307,119 @@ GENFUTS = [
 ]
 
 
+def _warm():
+    """Run one tiny execution of every family in the parent so that the library's lazy
+    imports are paid once, before the worker pool forks."""
+    for spec in (("prog", DEEP_PROGRAMS[0], 2), PIPES[0], GENFUTS[2]):
+        m = make_model(spec)
+        c = Cache()
+        judge_modes(m, c)
+        sc = (("S", 1), ("BM",), ("I", 0))
+        judge(m, "all", sc, run_script(m, "all", sc), c)
+
+
+def plans(tier):
+    """(driver, kind, specs, modes, alphabet id, max script length, split per first op, bounds note)"""
+    q = tier == "quick"
+    deep = [("prog", p, e) for p in DEEP_PROGRAMS for e in (None, 2)]
+    deep_alt = [("prog", p, (None, 2)[i % 2]) for i, p in enumerate(DEEP_PROGRAMS)]
+    p1 = prog_specs(1, BEH_FULL, (0, 1, 2), True, (None, 2, 0))
+    p1b = prog_specs(1, BEH_FULL, (0, 1, 2), True, (None, 2))
+    p2 = prog_specs(2, BEH_FULL, (0, 1, 2), False, (None, 2))
+    p2s = prog_specs(2, BEH_SMALL, (1, 2), True, (None, 2))
+    p2s1 = prog_specs(2, BEH_SMALL, (1, 2), False, (None, 2))
+    p3s = prog_specs(3, BEH_SMALL, (1, 2), False, (None, 2))
+    lib = PIPES + GENFUTS
+    st1 = [s for s in p1b if make_model(s).stateless or make_model(s).precancelled]
+    st2 = [s for s in p2s1 if make_model(s).stateless]
+    stdeep = [("prog", p, e) for p in STATELESS_DEEP for e in (None, 2)]
+    P = []
+    # ---- mode clause: every model, uninterrupted, under each of the 7 observation modes
+    p3s2 = [x for x in p3s if x[2] == 2]
+    P.append(("modes-programs", "modes", p1 + (p2s if q else p2 + p3s2) + deep, None, None, None, False,
+              f"C01 family: 1 event ({len(BEH_FULL)} behaviours x 3 kinds x 3 times x 2 targets) x end{{None,2,0}}; "
+              + (f"2 events ({len(BEH_SMALL)} behaviours, 2 targets) x end{{None,2}}" if q else
+                 f"2 events ({len(BEH_FULL)} behaviours) x end{{None,2}}; 3 events ({len(BEH_SMALL)} behaviours) x end 2")
+              + "; 6 hand-picked 3-event programs"))
+    P.append(("modes-library", "modes", lib, None, None, None, False,
+              "2 pipelines Source.constant->Server->Sink (explicit end), 3 generator/SimFuture models"))
+    # ---- wide: many programs, short scripts
+    if q:
+        P.append(("scripts-programs-wide", "scripts", p1b, ["control"], "A", 2, False,
+                  "every 1-event program x end{None,2}; all scripts <= 2 over the 12-symbol alphabet (set A)"))
+        P.append(("scripts-programs-wide", "scripts", p2s1, ["control"], "ext", 1, False,
+                  "every 2-event program (8 behaviours, 1 target) x end{None,2}; every single call of the 19-symbol alphabet"))
+    else:
+        P.append(("scripts-programs-wide", "scripts", p1, ["control"], "ext", 2, False,
+                  "every 1-event program x end{None,2,0}; all scripts <= 2 over the 19-symbol extended alphabet"))
+        P.append(("scripts-programs-wide", "scripts", p1b, ["control"], "A", 3, False,
+                  "every 1-event program x end{None,2}; all scripts <= 3 over the 12-symbol alphabet (set A)"))
+        P.append(("scripts-programs-wide", "scripts", p2s, ["control"], "ext", 1, False,
+                  "every 2-event program (8 behaviours, 2 targets); every single call of the 19-symbol alphabet"))
+        P.append(("scripts-programs-wide", "scripts", p2, ["control"], "pause", 1, False,
+                  "every 2-event program (24 behaviours); every single pause/step/resume/hook-pause call"))
+    # ---- deep: full script trees on hand-picked programs
+    if q:
+        P.append(("scripts-programs-deep", "scripts", deep_alt[:3], ["control"], "A", 4, True,
+                  "3 hand-picked programs: ALL scripts <= 4 over the 12-symbol alphabet, parameter set A"))
+        P.append(("scripts-programs-deep", "scripts", deep_alt[3:], ["control"], "B", 4, True,
+                  "3 hand-picked programs: ALL scripts <= 4, parameter set B"))
+        P.append(("scripts-programs-deep", "scripts", deep, ["all"], "A", 3, True,
+                  "6 programs x end{None,2}: ALL scripts <= 3 with every observer attached"))
+    else:
+        P.append(("scripts-programs-deep", "scripts", deep_alt, ["control"], "A", 5, True,
+                  "6 hand-picked programs: ALL scripts <= 5 over the 12-symbol alphabet, parameter set A"))
+        P.append(("scripts-programs-deep", "scripts", deep_alt, ["control"], "B", 5, True, "same, parameter set B"))
+        P.append(("scripts-programs-deep", "scripts", deep, ["all"], "A", 4, True,
+                  "6 programs x end{None,2}: ALL scripts <= 4 with every observer attached"))
+        P.append(("scripts-programs-deep6", "scripts", deep[:1], ["control"], "A", 6, True,
+                  "program #0 (tie between pre-run, run-created and daemon events + generator): ALL scripts <= 6"))
+    # ---- library pipeline
+    if q:
+        P.append(("scripts-pipeline", "scripts", PIPES[:1], ["control"], "A", 4, True,
+                  "Source.constant(4/s)->Server(0.375s,c=1)->Sink, end 1.25s: ALL scripts <= 4, set A"))
+        P.append(("scripts-pipeline", "scripts", PIPES, ["all"], "B", 3, True, "both pipelines, all observers: ALL scripts <= 3, set B"))
+    else:
+        P.append(("scripts-pipeline", "scripts", PIPES[:1], ["control"], "A", 5, True,
+                  "Source.constant(4/s)->Server(0.375s,c=1)->Sink, end 1.25s: ALL scripts <= 5, set A"))
+        P.append(("scripts-pipeline", "scripts", PIPES[1:], ["control"], "B", 5, True, "service 0.125s, end 1.0s: ALL scripts <= 5, set B"))
+        P.append(("scripts-pipeline", "scripts", PIPES, ["all"], "A", 4, True, "both pipelines, all observers: ALL scripts <= 4"))
+        P.append(("scripts-pipeline6", "scripts", PIPES[:1], ["control"], "pause", 6, True,
+                  "pipeline 1: ALL scripts <= 6 over {P,S1,S2,S5,R,H1,H2,H3}"))
+    # ---- generator / future model
+    if q:
+        P.append(("scripts-genfut", "scripts", GENFUTS[:1], ["control"], "A", 4, True,
+                  "2 clients, request/response future + any_of(timeout,response): ALL scripts <= 4, set A"))
+        P.append(("scripts-genfut", "scripts", GENFUTS[1:], ["all"], "B", 3, True, "tie timeout/response with explicit end; single client: <= 3, set B"))
+    else:
+        P.append(("scripts-genfut", "scripts", GENFUTS[:2], ["control"], "A", 5, True,
+                  "2-client models: ALL scripts <= 5, set A"))
+        P.append(("scripts-genfut", "scripts", GENFUTS[:2], ["control"], "B", 4, True, "2-client models: <= 4, set B"))
+        P.append(("scripts-genfut", "scripts", GENFUTS, ["all"], "A", 4, True, "all 3 models, all observers: <= 4"))
+        P.append(("scripts-genfut6", "scripts", GENFUTS[2:], ["control"], "A", 6, True,
+                  "single client (12 deliveries): ALL scripts <= 6 over the 12-symbol alphabet"))
+    # ---- every observation mode under pausing
+    P.append(("scripts-modes", "scripts", deep_alt[:4] + lib, SCRIPT_MODES, "A", 2 if q else 3, True,
+              "4 programs, 2 pipelines, 3 generator models x each of 6 observer combinations"))
+    # ---- reset()
+    P.append(("reset-programs", "scripts", st1, ["control"], "rst", 2 if q else 3, False,
+              "stateless 1-event programs (nop/emit/gen/genside/past; plain/daemon/pre-cancelled): scripts over "
+              "{P,S1,S2,R,H1,BC2,BM,I0,Z}"))
+    P.append(("reset-programs", "scripts", stdeep, ["control"] if q else ["control", "all"], "rst", 3 if q else 4, False,
+              "3 stateless 3-event programs x end{None,2}"))
+    if not q:
+        P.append(("reset-programs", "scripts", st2, ["control"], "rst", 3, False,
+                  "every stateless 2-event program of the small-alphabet family (1 target)"))
+    return P
+
+
+STATELESS_DEEP = [
+    ((0, 0, "plain", ("emit", 1, 2, False)), (1, 1, "plain", ("gen", 1, 0)), (1, 0, "daemon", ("nop",))),
+    ((0, 0, "plain", ("genside", 1)), (1, 1, "daemon", ("emit", 1, 1, True)), (2, 0, "plain", ("emit", 0, 1, False))),
+    ((1, 0, "plain", ("gen", 0, 1)), (1, 1, "plain", ("emit", 0, 2, False)), (2, 0, "plain", ("past",))),
+]
+
+
 def main(tier, seed, only=None):
     signal.signal(signal.SIGALRM, _on_alarm)
     run = Run(PID, tier, seed, "model_checking",
@@ -1265,68 +1432,17 @@ def main(tier, seed, only=None):
                            "the reference for events scheduled while paused after delivery j is the same event "
                            "scheduled from an on_event hook after delivery j of an uninterrupted run",
                            "reset() is compared only on models whose entities are stateless (harness bookkeeping "
-                           "is cleared by the harness)"])
-    q = tier == "quick"
-
-    def want(n):
-        return not only or n in only
-
-    deep = [("prog", p, e) for p in DEEP_PROGRAMS for e in (None, 2)]
-    p1 = prog_specs(1, BEH_FULL, (0, 1, 2), True, (None, 2, 0))
-    p2 = prog_specs(2, BEH_FULL, (0, 1, 2), False, (None, 2))
-    p2s = prog_specs(2, BEH_SMALL, (1, 2), True, (None, 2))
-    p3s = prog_specs(3, BEH_SMALL, (1, 2), False, (None, 2))
-    lib = PIPES + GENFUTS
-
-    # ---- mode clause
-    if want("modes-programs"):
-        specs = p1 + p2 + ([] if q else p3s) + deep
-        mode_driver(run, seed, "modes-programs", specs,
-                    {"programs": "C01 family: 1 event full alphabet x 2 targets x ends{None,2,0}; 2 events full "
-                                 "alphabet x ends{None,2}" + ("" if q else "; 3 events small alphabet") + "; deep set"},
-                    nchunks=128)
-    if want("modes-library"):
-        mode_driver(run, seed, "modes-library", lib, {"models": "2 pipelines (Source->Server->Sink), 3 generator/future models"},
-                    nchunks=len(lib))
-
-    # ---- scripts: wide over programs, shallow scripts, extended alphabet incl. reset
-    if want("scripts-programs-wide"):
-        script_driver(run, seed, "scripts-programs-wide", p1 + (p2s if q else p2), ["control"], "extZ", 2 if q else 2,
-                      False, {"programs": "1 event full alphabet x 2 targets; 2 events " + ("small" if q else "full") + " alphabet"},
-                      nchunks=256)
-    if want("scripts-programs-wide3") and not q:
-        script_driver(run, seed, "scripts-programs-wide3", p1 + p2s, ["control", "all"], "extZ", 3, False,
-                      {"programs": "1 event full alphabet x 2 targets; 2 events small alphabet x 2 targets"}, nchunks=512)
-    # ---- scripts: deep trees
-    Ld = 4 if q else 6
-    if want("scripts-programs-deep"):
-        for ps in ("A", "B"):
-            script_driver(run, seed, "scripts-programs-deep", deep if not q else deep, ["control"] if not q else ["control", "all"],
-                          ps, Ld if q else 5, True, {"programs": "6 hand-picked 3-event programs x ends{None,2}", "param_sets": ["A", "B"]})
-    if want("scripts-programs-deep6") and not q:
-        script_driver(run, seed, "scripts-programs-deep6", deep[:4], ["control"], "A", 6, True,
-                      {"programs": "first 2 hand-picked programs x ends{None,2}"})
-    if want("scripts-pipeline"):
-        script_driver(run, seed, "scripts-pipeline", PIPES[:1] if q else PIPES[:1], ["control", "all"] if q else ["control"],
-                      "A", Ld, True, {"pipeline": "Source.constant(4/s) -> Server(0.375s, c=1) -> Sink, end 1.25s"})
-        script_driver(run, seed, "scripts-pipeline", PIPES[1:], ["control"], "B", 3 if q else 5, True,
-                      {"pipeline2": "service 0.125s, end 1.0s, parameter set B"})
-    if want("scripts-genfut"):
-        script_driver(run, seed, "scripts-genfut", GENFUTS[:1], ["control", "all"] if q else ["control"], "A", Ld, True,
-                      {"model": "2 clients: request/response future, any_of(timeout, response) race"})
-        script_driver(run, seed, "scripts-genfut", GENFUTS[1:], ["control"], "B", 3 if q else 5, True,
-                      {"model2": "tie between timeout and response, explicit end; single client"})
-    # ---- every observation mode under pausing
-    if want("scripts-modes"):
-        script_driver(run, seed, "scripts-modes", deep[:4] + lib, SCRIPT_MODES, "A", 2 if q else 4, True,
-                      {"models": "2 hand-picked programs x ends{None,2}, pipelines, generator/future models"})
-    # ---- reset() on stateless programs (Z anywhere in the script)
-    if want("reset-programs"):
-        st1 = [s for s in p1 if make_model(s).stateless or make_model(s).precancelled]
-        st2 = [s for s in p2s if make_model(s).stateless]
-        script_driver(run, seed, "reset-programs", st1 + st2, ["control"] if q else ["control", "all"], "extZ", 2 if q else 3,
-                      False, {"programs": "stateless members (nop/emit/gen/genside/past, plain/daemon[/pre-cancelled]) of "
-                                          "the 1-event full and 2-event small families"}, nchunks=256)
+                           "is cleared by the harness)",
+                           "a script extended beyond the completion of the run performs no further calls; such "
+                           "extensions are counted (scripts_equivalent_after_completion_not_rerun), not re-executed"])
+    _warm()
+    for (name, kind, specs, modes, aid, L, split, note) in plans(tier):
+        if only and name not in only:
+            continue
+        if kind == "modes":
+            mode_driver(run, seed, name, specs, {"note": note}, nchunks=128)
+        else:
+            script_driver(run, seed, name, specs, modes, aid, L, split, {"note": note}, nchunks=256)
     return run.finish()
 
 
